@@ -53,7 +53,7 @@ LD, CD, SI = ABCPropertyGraph.PROP_LABEL_DELEGATIONS, ABCPropertyGraph.PROP_CAPA
 ADM_IDS = ['adm-A', 'adm-B', 'adm-C']
 
 
-def adm_graph(i, ids, deleg_on):
+def adm_graph(i, ids, deleg_on, kind=0):
     """a 3-node delegation model: node0 -has- node1 -connects- node2; node k carries a delegation iff deleg_on[k]"""
     g = nx.Graph()
     classes = [('NetworkNode', 'Server'), ('NetworkService', 'MPLS'), ('ConnectionPoint', 'TrunkPort')]
@@ -62,8 +62,10 @@ def adm_graph(i, ids, deleg_on):
         ck = int(ids[k][-1]) % 3
         p = {'NodeID': ids[k], 'Class': classes[ck][0], 'Type': classes[ck][1], 'Name': 'n-' + ids[k], 'StitchNode': 'true' if ids[k][0] == 'x' else 'false',
              'Capacities': json.dumps({'unit': 1})}
-        if deleg_on[k]:
+        # kind: 0 = the model delegates labels and capacities, 1 = labels only, 2 = capacities only
+        if deleg_on[k] and kind in (0, 1):
             p[LD] = json.dumps({'primary': {'pool_id': '_', 'labels': {'vlan_range': '%d00-%d99' % (i + 1, i + 1)}}})
+        if deleg_on[k] and kind in (0, 2):
             p[CD] = json.dumps({'primary': {'pool_id': '_', 'capacities': {'unit': i + 1}}})
         g.add_node(k + 1, **p)
     g.add_edge(1, 2, Class='has')
@@ -96,38 +98,44 @@ def canon(imp, gid):
     return nodes, edges
 
 
-def scenario(nadm, ids, deleg):
+def kind_of(i, dk):
+    """delegation kind of model i: the family mixes the kinds, rotated by the symbolic dk"""
+    return (dk + i) % 3
+
+
+def scenario(nadm, ids, deleg, dk=0):
     """build a store with the ADMs; returns (importer, [adm graphs])"""
     from fim.graph.networkx_property_graph import NetworkXGraphStorage
     NetworkXGraphStorage.storage_instance = None      # a fresh shared store per scenario (the store is a process-wide singleton)
     imp = NetworkXGraphImporter()
     adms = []
     for i in range(nadm):
-        imp.storage.add_graph(ADM_IDS[i], adm_graph(i, ids[i], deleg[i]))
+        imp.storage.add_graph(ADM_IDS[i], adm_graph(i, ids[i], deleg[i], kind_of(i, dk)))
         adms.append(NetworkXADMGraph(graph_id=ADM_IDS[i], importer=imp))
     return imp, adms
 
 
-def expected_union(nadm, ids, deleg):
+def expected_union(nadm, ids, deleg, dk=0):
     nodes, edges = {}, set()
     for i in range(nadm):
         for k in range(3):
             nid = ids[i][k]
-            e = nodes.setdefault(nid, {'contributors': [], 'deleg': None})
+            e = nodes.setdefault(nid, {'contributors': [], 'deleg': None, 'kind': 0})
             e['contributors'].append(ADM_IDS[i])
             if deleg[i][k]:
                 e['deleg'] = ADM_IDS[i]
+                e['kind'] = kind_of(i, dk)
         edges.add((min(ids[i][0], ids[i][1]), max(ids[i][0], ids[i][1]), 'has'))
         edges.add((min(ids[i][1], ids[i][2]), max(ids[i][1], ids[i][2]), 'connects'))
     return nodes, sorted(edges)
 
 
-def check(nadm, ids, deleg):
+def check(nadm, ids, deleg, dk=0):
     problems = []
-    exp_nodes, exp_edges = expected_union(nadm, ids, deleg)
+    exp_nodes, exp_edges = expected_union(nadm, ids, deleg, dk)
     results = []
     for order in itertools.permutations(range(nadm)):
-        imp, adms = scenario(nadm, ids, deleg)
+        imp, adms = scenario(nadm, ids, deleg, dk)
         src_before = [canon(imp, a.graph_id) for a in adms]
         cbm = NxCBM(graph_id='cbm', importer=imp)
         prev = None
@@ -153,7 +161,7 @@ def check(nadm, ids, deleg):
                 problems.append("node %s records contributors %s, expected %s (order %s)" % (nid, si.get('adm_graph_ids'), e['contributors'], order))
             for dp in (LD, CD):
                 d = gn[nid].get(dp)
-                if e['deleg'] is None:
+                if e['deleg'] is None or (dp == LD and e['kind'] == 2) or (dp == CD and e['kind'] == 1):
                     if d:
                         problems.append("node %s carries an unexpected delegation %s" % (nid, d))
                 elif not d or list(d.keys()) != [e['deleg']]:
@@ -222,24 +230,28 @@ def shares_two(nadm, s1, s2, t1, t2):
 
 
 def _mk(nadm):
-    def h_cbm(s1: int, s2: int, t1: int, t2: int, side1: bool, side2: bool, d0: bool, d1: bool) -> bool:
+    def h_cbm(s1: int, s2: int, t1: int, t2: int, side1: bool, side2: bool, d0: bool, d1: bool, dk: int = 0) -> bool:
         """
-        pre: 0 <= s1 < 4 and 0 <= s2 < 4 and 0 <= t1 < 4 and 0 <= t2 < 4
+        pre: 0 <= s1 < 4 and 0 <= s2 < 4 and 0 <= t1 < 4 and 0 <= t2 < 4 and 0 <= dk < 3
         post: R(_)
         """
         begin()
-        s1, s2, t1, t2 = _c(s1, 4), _c(s2, 4), _c(t1, 4), _c(t2, 4)
+        s1, s2, dk = _c(s1, 4), _c(s2, 4), _c(dk, 3)
+        if nadm == 3:
+            t1, t2 = _c(t1, 4), _c(t2, 4)
+        else:
+            t1, t2, side2 = 0, 0, False      # the third model's parameters are not looked at
         ids, deleg = layout(nadm, s1, s2, t1, t2, bool(side1), bool(side2), bool(d0), bool(d1))
         for i in range(nadm):
             if len(set(ids[i])) != 3:
                 return True      # node ids are distinct within one model
-        return untraced(check, nadm, ids, deleg) == []
+        return untraced(check, nadm, ids, deleg, dk) == []
     return h_cbm
 
 
-add("merge_unmerge/2_models", _mk(2), timeout=900, encodes=ENC,
+add("merge_unmerge/2_models", _mk(2), timeout=1200, encodes=ENC,
     bounds="2 delegation models of 3 nodes; which nodes of B are nodes of A (symbolic indices: every stitching pattern incl. none and two shared "
-           "nodes), which side carries the delegation on a shared node (symbolic), delegation presence bits; both merge orders; unmerge and "
+           "nodes), which side carries the delegation on a shared node (symbolic), delegation presence bits, which kinds each model delegates (labels+capacities / labels only / capacities only, rotated); both merge orders; unmerge and "
            "snapshot/rollback of the last merge")
-add("merge_unmerge/3_models", _mk(3), timeout=1800, encodes=ENC, tiers=("thorough",),
+add("merge_unmerge/3_models", _mk(3), timeout=5400, encodes=ENC, tiers=("thorough",),
     bounds="3 delegation models of 3 nodes, C sharing nodes with A and/or B (symbolic), all 6 merge orders; unmerge and snapshot/rollback of the last merge")
